@@ -230,9 +230,16 @@ def variants(facts, q, chk=None, need_pattern=True, file=None):
     return ok
 
 
-def local_init(fn, name):
-    """initialiser of the local variable `name` (None if not found or not unique)"""
+MISSING_LOCALS = []      # (function, name): frozen local variable names a rule looked for and that do not exist (renamed code)
+
+
+def local_init(fn, name, optional=False):
+    """initialiser of the local variable `name` (None if not found or not unique).
+    Rules look locals up by the name they have in today's source; when no such variable exists at all the lookup is
+    recorded and the check ends as analysis-broken (unrecognised idiom) instead of reporting a violation."""
     ds = fn.body.find(lambda n: n.k == 'VarDecl' and n.n == name)
+    if not ds and not optional and isinstance(name, str) and not any(p.get('n') == name for p in fn.params):
+        MISSING_LOCALS.append((fn.q, name))
     if len(ds) != 1 or not ds[0].c:
         return None
     return strip_casts(ds[0].c[0])
